@@ -288,6 +288,9 @@ pub fn run(em: &mut Emit, thorough: bool, seed: u64) {
         ("\"\"", Some("")), ("''", Some("")), ("\"\"\"\"\"\"", Some("")), ("''''''", Some("")), ("r''", Some("")),
         ("\"a\nb\"", None), ("'a\rb'", None), ("\"abc", None), ("'abc", None), ("\"\"\"abc\"\"", None), ("r\"abc", None),
         ("\"\"\"a\"\"\"\"", None),
+        // raw triple-quoted bodies with pairs of the delimiter's quote; a body ending in the quote ends early
+        ("r'''it''s \"q\" \\n'''", Some("it''s \"q\" \\n")), ("R\"\"\"a\"\"b'c'''d\"\"\"", Some("a\"\"b'c'''d")),
+        ("r'''a''''", None), ("r'''a'''b'''", None),
     ] {
         let e = match exp {
             Some(s) => expected_str(&s.chars().map(|c| c as u32).collect::<Vec<_>>()),
@@ -300,6 +303,8 @@ pub fn run(em: &mut Emit, thorough: bool, seed: u64) {
         ("br'a\\n'", Some(b"a\\n".to_vec())), ("b\"\\n\"", Some(b"\n".to_vec())), ("b'\\u00e9'", Some(vec![0xc3, 0xa9])),
         ("b'é'", Some(vec![0xc3, 0xa9])), ("b'\\xe9'", Some(vec![0xe9])), ("b'\\351'", Some(vec![0xe9])), ("B\"\"", Some(vec![])),
         ("b\"\"\"a\"b\"\"\"", Some(b"a\"b".to_vec())), ("b'\\U0001F431'", Some("🐱".as_bytes().to_vec())),
+        ("br'''it''s é'''", Some("it''s é".as_bytes().to_vec())), ("Br\"\"\"x\"\"y\\\"\"\"", Some(b"x\"\"y\\".to_vec())),
+        ("bR'é\\x41'", Some("é\\x41".as_bytes().to_vec())), ("br'''a''''", None),
         ("rb'x'", None), ("b 'x'", None), ("b\"abc", None),
     ] {
         let e = match exp {
